@@ -1342,7 +1342,7 @@ def pattern_rem_u32(context, tree, c0, c1):
     return d
 
 
-def sign_extend(context, value, bits):
+def sign_extend_reg(context, value, bits):
     """Sign extend the low bits of a value into a new register"""
     d = context.new_reg(RiscvRegister)
     context.emit(Slli(d, value, 32 - bits))
@@ -1350,7 +1350,7 @@ def sign_extend(context, value, bits):
     return d
 
 
-def zero_extend(context, value, bits):
+def zero_extend_reg(context, value, bits):
     """Zero extend the low bits of a value into a new register"""
     d = context.new_reg(RiscvRegister)
     context.emit(Slli(d, value, 32 - bits))
@@ -1362,57 +1362,57 @@ def zero_extend(context, value, bits):
 # bits of a register with an 8 or 16 bit value are not defined, extend first:
 @isa.pattern("reg", "DIVI8(reg, reg)", size=18)
 def pattern_div_i8(context, tree, c0, c1):
-    a = sign_extend(context, c0, 8)
-    b = sign_extend(context, c1, 8)
+    a = sign_extend_reg(context, c0, 8)
+    b = sign_extend_reg(context, c1, 8)
     return pattern_div_i32(context, tree, a, b)
 
 
 @isa.pattern("reg", "DIVI16(reg, reg)", size=18)
 def pattern_div_i16(context, tree, c0, c1):
-    a = sign_extend(context, c0, 16)
-    b = sign_extend(context, c1, 16)
+    a = sign_extend_reg(context, c0, 16)
+    b = sign_extend_reg(context, c1, 16)
     return pattern_div_i32(context, tree, a, b)
 
 
 @isa.pattern("reg", "DIVU8(reg, reg)", size=18)
 def pattern_div_u8(context, tree, c0, c1):
-    a = zero_extend(context, c0, 8)
-    b = zero_extend(context, c1, 8)
+    a = zero_extend_reg(context, c0, 8)
+    b = zero_extend_reg(context, c1, 8)
     return pattern_div_u32(context, tree, a, b)
 
 
 @isa.pattern("reg", "DIVU16(reg, reg)", size=18)
 def pattern_div_u16(context, tree, c0, c1):
-    a = zero_extend(context, c0, 16)
-    b = zero_extend(context, c1, 16)
+    a = zero_extend_reg(context, c0, 16)
+    b = zero_extend_reg(context, c1, 16)
     return pattern_div_u32(context, tree, a, b)
 
 
 @isa.pattern("reg", "REMI8(reg, reg)", size=18)
 def pattern_rem_i8(context, tree, c0, c1):
-    a = sign_extend(context, c0, 8)
-    b = sign_extend(context, c1, 8)
+    a = sign_extend_reg(context, c0, 8)
+    b = sign_extend_reg(context, c1, 8)
     return pattern_rem_i32(context, tree, a, b)
 
 
 @isa.pattern("reg", "REMI16(reg, reg)", size=18)
 def pattern_rem_i16(context, tree, c0, c1):
-    a = sign_extend(context, c0, 16)
-    b = sign_extend(context, c1, 16)
+    a = sign_extend_reg(context, c0, 16)
+    b = sign_extend_reg(context, c1, 16)
     return pattern_rem_i32(context, tree, a, b)
 
 
 @isa.pattern("reg", "REMU8(reg, reg)", size=18)
 def pattern_rem_u8(context, tree, c0, c1):
-    a = zero_extend(context, c0, 8)
-    b = zero_extend(context, c1, 8)
+    a = zero_extend_reg(context, c0, 8)
+    b = zero_extend_reg(context, c1, 8)
     return pattern_rem_u32(context, tree, a, b)
 
 
 @isa.pattern("reg", "REMU16(reg, reg)", size=18)
 def pattern_rem_u16(context, tree, c0, c1):
-    a = zero_extend(context, c0, 16)
-    b = zero_extend(context, c1, 16)
+    a = zero_extend_reg(context, c0, 16)
+    b = zero_extend_reg(context, c1, 16)
     return pattern_rem_u32(context, tree, a, b)
 
 
@@ -1549,25 +1549,25 @@ def pattern_ftoi8_f32(context, tree, c0):
 @isa.pattern("reg", "I8TOF32(reg)", size=28)
 @isa.pattern("reg", "I8TOF64(reg)", size=28)
 def pattern_i8tof_f32(context, tree, c0):
-    return pattern_itof_f32(context, tree, sign_extend(context, c0, 8))
+    return pattern_itof_f32(context, tree, sign_extend_reg(context, c0, 8))
 
 
 @isa.pattern("reg", "U8TOF32(reg)", size=28)
 @isa.pattern("reg", "U8TOF64(reg)", size=28)
 def pattern_u8tof_f32(context, tree, c0):
-    return pattern_itof_f32(context, tree, zero_extend(context, c0, 8))
+    return pattern_itof_f32(context, tree, zero_extend_reg(context, c0, 8))
 
 
 @isa.pattern("reg", "I16TOF32(reg)", size=28)
 @isa.pattern("reg", "I16TOF64(reg)", size=28)
 def pattern_i16tof_f32(context, tree, c0):
-    return pattern_itof_f32(context, tree, sign_extend(context, c0, 16))
+    return pattern_itof_f32(context, tree, sign_extend_reg(context, c0, 16))
 
 
 @isa.pattern("reg", "U16TOF32(reg)", size=28)
 @isa.pattern("reg", "U16TOF64(reg)", size=28)
 def pattern_u16tof_f32(context, tree, c0):
-    return pattern_itof_f32(context, tree, zero_extend(context, c0, 16))
+    return pattern_itof_f32(context, tree, zero_extend_reg(context, c0, 16))
 
 
 @isa.pattern("stm", "CJMPF32(reg, reg)", size=20)
